@@ -145,7 +145,8 @@ fn prims_interval(prims: &[Prim]) -> Option<Iv> {
     let mut iv = Iv::all();
     for p in prims {
         let one = match p {
-            Prim::Any | Prim::Nothing => return None,
+            Prim::Any => return None,
+            Prim::Nothing => Iv { lo: End::Unb, hi: End::Exc(MV::new(0, 0, 0).with_pre(&["0"])) },
             Prim::Cmp(POp::Lt, v) => Iv { lo: End::Unb, hi: End::Exc(v.clone()) },
             Prim::Cmp(POp::Le, v) => Iv { lo: End::Unb, hi: End::Inc(v.clone()) },
             Prim::Cmp(POp::Gt, v) => Iv { lo: End::Exc(v.clone()), hi: End::Unb },
